@@ -28,14 +28,18 @@ def tree_problems(tree):
         # ends.  Zero-width children (metas, placeholders) are not judged: a token that spans several template slices
         # legitimately has the placeholders of those slices emitted next to it although their position lies
         # inside its span, and indents are inserted by token index next to them.
+        # A child's position is taken from its leaves that carry text: a zero-width meta placed (by a token
+        # that spans template slices) inside the *next* token would otherwise stretch its parent over that token.
         prev_stop = None
         for c in ch:
-            cs = c.pos_marker.templated_slice
-            if cs.stop > cs.start:
-                if prev_stop is not None and cs.start < prev_stop:
-                    probs.append(("child-order", seg.get_type(), f"child {c.get_type()} {cs} starts before {prev_stop}"))
-                    break
-                prev_stop = cs.stop
+            leaves = [r.pos_marker.templated_slice for r in c.raw_segments if not r.is_meta and r.raw]
+            if not leaves:
+                continue
+            start, stop = min(l.start for l in leaves), max(l.stop for l in leaves)
+            if prev_stop is not None and start < prev_stop:
+                probs.append(("child-order", seg.get_type(), f"child {c.get_type()} text {start}:{stop} starts before {prev_stop}"))
+                break
+            prev_stop = stop
         unp = in_unparsable or seg.is_type("unparsable")
         if not seg.is_type("file") and not unp:
             nm = [c for c in ch if not c.is_meta]
